@@ -49,8 +49,28 @@ def one_run(world, seed, idx, tier, baseline, journal=None):
     res = world.execute(journal, baseline)
     res['journal_digest'] = core.jdigest(journal)
     res['idx'] = idx
-    if res.get('violations'):
+    if res.get('violations') or res.get('r3_jobs'):
         res['journal'] = journal
+    return res
+
+
+def run_audits(world, res):
+    """R3: repeat each recorded fresh-instance computation in its own pristine child."""
+    journal = res['journal']
+    n = 0
+    for job in res.pop('r3_jobs'):
+        status, out = core.run_in_child(lambda: world.audit(journal, job), timeout=60)
+        n += 1
+        if status != 'ok':
+            continue
+        if out['o'] != job['o']:
+            tp = journal['tenants'][job['gid']]
+            res.setdefault('violations', []).append({
+                'check': 'R3', 'event': job['i'], 'cls': tp['bp']['cls'],
+                'sig': 'R3|%s' % tp['bp']['cls'],
+                'detail': ('call #%d on %s(%s): in this world %s ; a fresh instance in a pristine process gives %s'
+                           % (job['i'], tp['bp']['cls'], job['gid'], core.short(job['o']), core.short(out['o'])))[:1500]})
+    res.setdefault('refs', {})['R3'] = n
     return res
 
 
@@ -81,6 +101,8 @@ def worker_loop(world, seed, tier, baseline, indices, deadline, timeout, keep_lo
         if status == 'error':
             agg['harness'].append({'idx': idx, 'error': res[-3000:]})
             continue
+        if res.get('r3_jobs') and hasattr(world, 'audit'):
+            res = run_audits(world, res)
         agg['runs'] += 1
         agg['events'] += res.get('events', 0)
         agg['sim_time'] += res.get('sim_time', 0)
@@ -178,6 +200,19 @@ def run_batch(world, tier, seed, runs, workers, first, wall_cap):
 # ---------------------------------------------------------------------------
 # Shrinking and replay files
 # ---------------------------------------------------------------------------
+def execute_full(world, journal, baseline, timeout=60):
+    """execute() in a fresh child, then the run's R3 audits (each in its own pristine child)."""
+    def go():
+        res = world.execute(journal, baseline)
+        if res.get('r3_jobs'):
+            res['journal'] = journal
+        return res
+    status, res = core.run_in_child(go, timeout=timeout)
+    if status == 'ok' and res.get('r3_jobs') and hasattr(world, 'audit'):
+        res = run_audits(world, res)
+    return status, res
+
+
 def first_violation(res):
     vs = res.get('violations') or []
     return vs[0] if vs else None
@@ -196,7 +231,7 @@ def shrink(world, journal, target, baseline, budget_s=45.0, max_tests=250):
     def test(cand):
         j = dict(journal)
         j['events'] = cand
-        status, res = core.run_in_child(lambda: world.execute(j, baseline), timeout=30)
+        status, res = execute_full(world, j, baseline, timeout=30)
         if status != 'ok':
             return False
         return any(same_violation(v, target) for v in res.get('violations') or [])
@@ -222,7 +257,7 @@ def shrink(world, journal, target, baseline, budget_s=45.0, max_tests=250):
 
 
 def _test_journal(world, j, target, baseline):
-    status, res = core.run_in_child(lambda: world.execute(j, baseline), timeout=30)
+    status, res = execute_full(world, j, baseline, timeout=30)
     if status != 'ok':
         return False
     return any(same_violation(v, target) for v in res.get('violations') or [])
@@ -244,7 +279,7 @@ def write_replay(world, seed, tier, hashseed, item, baseline, do_shrink=True):
     if do_shrink and journal is not None:
         small, used, ok = shrink(world, journal, target, baseline)
         if ok:
-            status, res = core.run_in_child(lambda: world.execute(small, baseline), timeout=30)
+            status, res = execute_full(world, small, baseline, timeout=30)
             vs = [v for v in (res.get('violations') or [])
                   if same_violation(v, target)] if status == 'ok' else []
             if vs:
@@ -297,7 +332,7 @@ def cmd_replay(args):
     if status != 'ok':
         print('HARNESS-ERROR baseline failed: %s' % baseline)
         return 2
-    status, res = core.run_in_child(lambda: world.execute(doc['journal'], baseline), timeout=120)
+    status, res = execute_full(world, doc['journal'], baseline, timeout=120)
     if status == 'timeout':
         print('REPLAY: run hung (wall-clock watchdog)')
         print('VIOLATION property=%s replay=%s' % (doc['property'], args.file))
